@@ -13,6 +13,10 @@ MaxLen     == 3
 Input      == <<>>
 FirstSyms  == Alphabet
 AllowEmpty == TRUE
+(* text mode (DecodeText) *)
+RawChars == {"[", "]", ".", "C"}
+RawLen   == 4
+RawFirst == RawChars
 (* trace mode (TraceDec) *)
 Tr == <<>>
 =====================================================================
